@@ -34,7 +34,7 @@ pub trait Check: Sync {
 }
 
 pub fn all() -> Vec<Box<dyn Check>> {
-    vec![Box::new(c01::C01), Box::new(c07::C07), Box::new(c08::C08), Box::new(c13::C13), Box::new(c14::C14), Box::new(buschecks::C02), Box::new(buschecks::C03), Box::new(buschecks::C04), Box::new(buschecks::C10)]
+    vec![Box::new(c01::C01), Box::new(c07::C07), Box::new(c08::C08), Box::new(c13::C13), Box::new(c14::C14), Box::new(buschecks::C02), Box::new(buschecks::C03), Box::new(buschecks::C04), Box::new(buschecks::C10), Box::new(buschecks::C05B)]
 }
 
 pub fn find(id: &str) -> Option<Box<dyn Check>> {
